@@ -146,4 +146,47 @@ def specRemove (cap : Nat) (l : Spec) (idx : Nat) : Spec × RmResult :=
   else if specLive l idx then (l.filter (·.1 ≠ idx), .ok)
   else (l, .dupFree)
 
+/-! ## Operation histories -/
+
+inductive Op where
+  | insert (v : Val)
+  | remove (idx : Nat)
+  | get (idx : Nat)
+  | iter
+  deriving Repr, DecidableEq
+
+inductive Res where
+  | inserted (r : Option Nat)
+  | removed (r : RmResult)
+  | got (v : Val)
+  | entries (l : List (Nat × Val))
+  deriving Repr, DecidableEq
+
+def step (s : PS) : Op → Except Err (PS × Res)
+  | .insert v => do let (s, r) ← insert s v; pure (s, .inserted r)
+  | .remove i => do let (s, r) ← remove s i; pure (s, .removed r)
+  | .get i => do let v ← get s i; pure (s, .got v)
+  | .iter => do let l ← iterate s; pure (s, .entries l)
+
+def run (s : PS) : List Op → Except Err (PS × List Res)
+  | [] => .ok (s, [])
+  | op :: ops => do
+    let (s1, r) ← step s op
+    let (s2, rs) ← run s1 ops
+    pure (s2, r :: rs)
+
+/-- the answers `rs` to the calls `ops` are what the property allows, starting from
+the live entries `l` and ending with `l'`: an insert returns an index that is below
+the capacity and not live (or is refused exactly when `capacity` entries are live),
+remove / get / iteration answer as the list of live entries dictates -/
+def Conforms (cap : Nat) : Spec → List Op → List Res → Spec → Prop
+  | l, [], [], l' => l' = l
+  | l, .insert v :: ops, .inserted r :: rs, l' =>
+    specInsertOk cap l r = true ∧ Conforms cap (specInsert l r v) ops rs l'
+  | l, .remove i :: ops, .removed r :: rs, l' =>
+    r = (specRemove cap l i).2 ∧ Conforms cap (specRemove cap l i).1 ops rs l'
+  | l, .get i :: ops, .got v :: rs, l' => v = specGet l i ∧ Conforms cap l ops rs l'
+  | l, .iter :: ops, .entries e :: rs, l' => e = l ∧ Conforms cap l ops rs l'
+  | _, _, _, _ => False
+
 end MgModel.C11.PS
